@@ -1,5 +1,7 @@
 import Driver.Util
 import Driver.Mac
+import Driver.Dev
+import Driver.Nb
 /-! Suite C09: MAC-level histories (see Driver/Mac.lean). The model's run satisfies the C09
 theorems (Props/C09.lean), hence `oracle=ok` on the model side. -/
 namespace Driver.C09
@@ -7,6 +9,8 @@ namespace Driver.C09
 def handle (ws : List String) : String :=
   match ws with
   | "mac" :: rest => s!"{Driver.Mac.run rest} ## oracle=ok|-"
+  | "nbdev" :: rest => s!"{Driver.Nb.run rest} ## oracle=ok|-"
+  | "adev" :: rest => s!"{Driver.Dev.run rest} ## oracle=ok|-"
   | _ => "bad-op"
 
 end Driver.C09
